@@ -293,13 +293,23 @@ impl FileSpec {
     }
 
     // handles collisions by appending ".restart-<number>" to the infix, if necessary
-    pub(crate) fn collision_free_infix_for_rotated_file(&self, infix: &str) -> String {
-        let uncompressed_files = self.list_of_files(
+    // (fails if the directory cannot be listed: without the list of the existing files,
+    // a name could be chosen that sorts before the existing ones, or that is in use)
+    pub(crate) fn collision_free_infix_for_rotated_file(
+        &self,
+        infix: &str,
+    ) -> Result<String, std::io::Error> {
+        let related_files = self.try_read_dir_related_files()?;
+        let uncompressed_files = self.filter_files(
+            &related_files,
             &InfixFilter::Equls(infix.to_string()),
             self.o_suffix.as_deref(),
         );
-        let compressed_files =
-            self.list_of_files(&InfixFilter::Equls(infix.to_string()), Some("gz"));
+        let compressed_files = self.filter_files(
+            &related_files,
+            &InfixFilter::Equls(infix.to_string()),
+            Some("gz"),
+        );
 
         let mut restart_siblings = uncompressed_files
             .into_iter()
@@ -334,7 +344,7 @@ impl FileSpec {
 
         // if collision would occur (new_path or compressed new_path exists already),
         // find highest restart and add 1, else continue without restart
-        if new_path.exists() || new_path_with_gz.exists() || !restart_siblings.is_empty() {
+        Ok(if new_path.exists() || new_path_with_gz.exists() || !restart_siblings.is_empty() {
             let next_number = if restart_siblings.is_empty() {
                 0
             } else {
@@ -366,7 +376,7 @@ impl FileSpec {
             }
         } else {
             infix.to_string()
-        }
+        })
     }
 
     pub(crate) fn list_of_files(
@@ -379,12 +389,24 @@ impl FileSpec {
 
     // returns an ordered list of all files in the right directory that start with the fixed_name_part
     pub(crate) fn read_dir_related_files(&self) -> Vec<PathBuf> {
+        self.try_read_dir_related_files()
+            .unwrap_or_default(/*ignore errors from reading the directory*/)
+    }
+
+    // like read_dir_related_files(), but fails if the directory exists and cannot be read
+    pub(crate) fn try_read_dir_related_files(&self) -> Result<Vec<PathBuf>, std::io::Error> {
         #[cfg(feature = "verif_hooks")]
         crate::verif_hooks::point("read_dir", Some(&self.directory), None).ok();
         let fixed_name_part = self.fixed_name_part();
-        let mut log_files = std::fs::read_dir(&self.directory)
-            .into_iter(/*ignore errors from reading the directory, e.g. if it does not exist*/)
-            .flatten()
+        let read_dir = match std::fs::read_dir(&self.directory) {
+            Ok(read_dir) => read_dir,
+            Err(e) if e.kind() == std::io::ErrorKind::NotFound => {
+                // the directory does not exist (yet, or anymore), so there are no files
+                return Ok(Vec::new());
+            }
+            Err(e) => return Err(e),
+        };
+        let mut log_files = read_dir
             .flatten(/*ignore errors from reading entries in the directory*/)
             .filter(|entry| entry.path().is_file())
             .map(|de| de.path())
@@ -401,7 +423,7 @@ impl FileSpec {
         // would be taken as newer than "r2024-06-09_13-24-35.restart-0000.txt"
         log_files.sort_unstable_by_key(|path| self.file_name_without_suffixes(path));
         log_files.reverse();
-        log_files
+        Ok(log_files)
     }
 
     fn file_name_without_suffixes(&self, path: &Path) -> String {
